@@ -848,7 +848,7 @@ impl<R: data::RequestEncoder> ClientRequestEncoder<R> {
     }
 }
 
-fn encode_resource(encoding: Encoding, resource: &Resource) -> EncodedPayload {
+fn encode_resource(encoding: Encoding, resource: &Resource) -> Result<EncodedPayload, Error> {
     let attributes = data::PropsResourceAttributes(&resource.attributes);
 
     let resource = data::Resource {
